@@ -59,6 +59,7 @@ def plan(tier, seed):
         if fi == 0:
             scs += [dict(kind='real', file=fi, rel=['super', d]) for d in ([[2, 1, 1]] if tier == 'quick' else [[2, 1, 1], [1, 1, 2], [1, 2, 1]])]
     scs += [dict(kind='large')] + [dict(kind='twist', cell=ci, pre=pre) for ci in (0, 1) for pre in (0, 1, 2)]
+    scs += [dict(sc, kind='history') for sc in history_scenarios(tier)]
     return dict(scenarios=scs, exhaustive=True, chunk=4,
                 menus=dict(cells=[c[0] for c in G.CELLS], patterns=G.PATTERN_NAMES, decoys=DECOYS3, real_files=[r[0] for r in REAL[:len(files)]],
                            relations=['shift-and-wrap', 'atom permutation', 'rigid motion of the pattern', 'other numbering of the atom types (pattern / structure)', 'hint forms', 'draw answers', 'supercell'],
@@ -356,9 +357,34 @@ def run_scale(sc, ctx, out):
     out['outcomes']['twist: base matches %d' % len(base[0])] = 1; out['nontrivial'] = 1 if len(base[0]) else 0
 
 
+def run_hist(sc, ctx, out):
+    """the search does not depend on the past of the objects: same result as on fresh objects with the same content"""
+    e = run_history(sc, ctx)
+    desc = dict(history=e['name'], base=HIST_BASES[sc['base']], hints=e['kw'])
+    if e.get('alias'):
+        out['violations'].append(viol('representation-independence', 'history:shared-data', '%s: %s' % (e['name'], e['alias']), sc, case=desc))
+    if e.get('skip'):
+        out['outcomes']['history skipped'] = 1; return
+    out['evals'] += 2; out['compared'] += 1
+    if not e['fresh_ok']:
+        out['outcomes']['history: no fresh equivalent'] = 1; return
+    if bool(e['err']) != bool(e['ferr']):
+        out['violations'].append(viol('representation-independence', 'history:exc', 'after the history "%s" the search %s, on fresh objects with the same content it %s' % (
+            e['name'], 'raised %r' % (e['err'][0],) if e['err'] else 'returned', 'raised %r' % (e['ferr'][0],) if e['ferr'] else 'returned'), sc, case=desc)); return
+    if e['err']:
+        return
+    a = [tuple(int(i) for i in t) for t in e['res'][0]]; b = [tuple(int(i) for i in t) for t in e['fres'][0]]
+    same = a == b and all(np.abs(np.asarray(x, float) - np.asarray(y, float)).max() <= 1e-9 for x, y in zip(e['res'][1], e['fres'][1]))
+    if not same:
+        out['violations'].append(viol('representation-independence', 'history:differs', 'after the history "%s" the search reports %r; the same search on freshly built objects with the same content reports %r' % (e['name'], a, b), sc, case=desc))
+    out['outcomes']['history matches=%d' % len(b)] = 1; out['nontrivial'] = 1 if b else 0
+
+
 def run(sc, ctx):
     out = dict(evals=0, compared=0, violations=[], outcomes={}, hashes={h64(sc)}, nontrivial=0)
-    if sc['kind'] in ('large', 'twist'):
+    if sc['kind'] == 'history':
+        run_hist(sc, ctx, out)
+    elif sc['kind'] in ('large', 'twist'):
         run_scale(sc, ctx, out)
     elif sc['kind'] == 'gen':
         run_gen(sc, ctx, out)
